@@ -54,7 +54,7 @@ def main():
             jobs = int(args[1])
         args = args[2:]
     if not args:
-        args = sorted(os.listdir(os.path.join(VERIF, "seeded")))
+        args = sorted(n for n in os.listdir(os.path.join(VERIF, "seeded")) if os.path.isdir(os.path.join(VERIF, "seeded", n)))
     with ThreadPoolExecutor(jobs) as ex:
         for fut in [ex.submit(run_one, a, tier, k) for k, a in enumerate(args)]:
             for r in fut.result():
